@@ -221,7 +221,11 @@ c.raises("Exception", "not spec.ed_decodable(bytes)", name="undecodable", tags="
 # completeness of decoding, from the Lean theorem about the real xrecover (no cited lemma any more): if `bytes` is the
 # canonical encoding of P then decodepoint finds exactly P
 c.hint("entry", "spec.ed_point_facts(spec.dec(spec.ed_group(), bytes))", name="points-are-coordinate-pairs")
+# stepping stone (proved first, then available): the y field of a decodable string IS the y coordinate of the point it encodes
+c.hint("entry", "implies(spec.ed_decodable(bytes), spec.ed_y(spec.dec(spec.ed_group(), bytes)) == spec.ed_decode_xy(bytes)[1])", name="y-field-of-a-decodable-string")
 c.lemma("entry", "ed_xrecover_complete", "spec.ed_decode_xy(bytes)[1]", "spec.dec(spec.ed_group(), bytes)")
+# second stepping stone, proved once at entry from the lemma instance above: decoding a decodable string finds its point
+c.hint("entry", "implies(spec.ed_decodable(bytes), spec.ed_oncurve(spec.ed_decode_xy(bytes)[0], spec.ed_decode_xy(bytes)[1]) and spec.ed_aff(spec.ed_decode_xy(bytes)[0], spec.ed_decode_xy(bytes)[1]) == spec.dec(spec.ed_group(), bytes))", name="decoding-is-complete")
 c.lemma("after:P", "ed_insub_def", "spec.ed_view(P)")
 c.hint("entry", "spec.ed_enc(spec.ed_O()) == _zero_bytes", name="zero-bytes-encode-the-identity")
 c.hint("after:P", "spec.ed_decodable_intro(spec.ed_view(P), bytes)", name="definition-of-decodable")
